@@ -201,8 +201,8 @@ def run(ctx: Ctx):
     if len(rets) == 3:
         (c1, r1), (c2, r2), (c3, r3) = rets
         s1, s2 = it4.sym(r1), it4.sym(r2)
-        sh1 = s1.op == "meth" and s1.args[1] == "eval" and s1.args[0].op == "selfattr" and s1.args[0].args[0] == "baseline" and c1 is not None and "alpha" in vg.show(c1, 3) and "== 1" in vg.show(c1, 3)
-        sh0 = s2.op == "meth" and s2.args[1] == "eval" and s2.args[0].op == "selfattr" and s2.args[0].args[0] == "warmup_baseline" and c2 is not None and "== 0" in vg.show(c2, 4)
+        sh1 = s1.op == "meth" and s1.args[1] == "eval" and s1.args[0].op == "selfattr" and s1.args[0].args[0] == "baseline" and _alpha_eq(c1, 1)
+        sh0 = s2.op == "meth" and s2.args[1] == "eval" and s2.args[0].op == "selfattr" and s2.args[0].args[0] == "warmup_baseline" and _alpha_eq(c2, 0)
         items = r3.items if isinstance(r3, vg.Tup) else list(it4.sym(r3).args)
         comb = []
         for i, itx in enumerate(items):
@@ -219,12 +219,58 @@ def run(ctx: Ctx):
     ctx.ob("C20.d", "WarmupBaseline.eval:convex-combination", okw, fw.loc, whyw, construct="WarmupBaseline.eval:combination")
     fcb = wb.methods["epoch_callback"]
     ctx.fn(fcb)
-    src = ast.unparse(fcb.node)
-    oka = "if kw['epoch'] < self.n_epochs:" in src and "self.alpha = (kw['epoch'] + 1) / float(self.n_epochs)" in src
-    ctx.ob("C20.d", "WarmupBaseline.epoch_callback:alpha", oka, fcb.loc, "alpha <- (epoch + 1) / n_epochs while epoch < n_epochs", construct="WarmupBaseline.epoch_callback:alpha")
+    it5 = vg.Interp(ctx.repo, wb, inline_policy=lambda f, a: False)
+    it5.run_function(fcb)
+    al = it5.selfattrs.get("alpha")
+    oka, whya = False, "self.alpha is not assigned conditionally"
+
+    def unfloat(x):
+        x = nf.strip(x)
+        while isinstance(x, vg.S) and nf._fn(x) == "float" and len(x.args) == 2:
+            x = nf.strip(x.args[1])
+        return x
+
+    if isinstance(al, vg.S) and al.op in ("phi", "ifexp"):
+        t, new_, keep = al.args
+        r_ = nf.cmpnf(t)
+        n_ep = nf.poly(A("n_epochs"))
+        keep_ok = keep.op == "selfattr" and keep.args[0] == "alpha"
+        if r_ is not None and keep_ok:
+            d_, op_ = r_
+            ep = n_ep - d_          # epoch < n_epochs  <=>  n_epochs - epoch > 0
+            t_ok = op_ == ">0" and len(ep.atoms()) == 1 and "epoch" in vg.show(ep.atoms()[0], 3) and ep == nf.Poly.atom(ep.atoms()[0])
+            v = nf.strip(new_)
+            v_ok = isinstance(v, vg.S) and v.op == "/" and nf.poly(v.args[0]) == ep + nf.Poly.const(1) and unfloat(v.args[1]) is A("n_epochs")
+            oka = t_ok and v_ok
+            whya = f"updated iff epoch < n_epochs: {t_ok}; alpha' = (epoch + 1) / n_epochs: {v_ok}; otherwise kept: {keep_ok}"
+    ctx.ob("C20.d", "WarmupBaseline.epoch_callback:alpha", oka, fcb.loc, "alpha <- (epoch + 1) / n_epochs while epoch < n_epochs -- " + whya, construct="WarmupBaseline.epoch_callback:alpha")
     init = wb.methods["__init__"]
-    src = ast.unparse(init.node)
-    ctx.ob("C20.d", "WarmupBaseline.__init__:alpha0", "self.alpha = 0" in src and "assert n_epochs > 0" in src, init.loc, "alpha starts at 0; n_epochs > 0", construct="WarmupBaseline.__init__:alpha")
+    ctx.fn(init)
+    it6 = vg.Interp(ctx.repo, wb, inline_policy=lambda f, a: False)
+    it6.run_function(init)
+    a0 = it6.selfattrs.get("alpha")
+    n0 = it6.selfattrs.get("n_epochs")
+    pos = False
+    for e in it6.events:
+        if e.kind == "assert" and not e.conds and isinstance(e.data, vg.S):
+            r_ = nf.cmpnf(e.data)
+            if r_ is not None and isinstance(n0, vg.S):
+                d_, op_ = r_
+                pos = pos or (op_ == ">0" and d_ == nf.poly(n0)) or (op_ == ">=0" and d_ == nf.poly(n0) - nf.Poly.const(1))
+    ctx.ob("C20.d", "WarmupBaseline.__init__:alpha0", vg.is_const(a0, 0) and pos, init.loc, f"alpha starts at 0: {vg.is_const(a0, 0)}; n_epochs > 0 is asserted: {pos}", construct="WarmupBaseline.__init__:alpha")
+
+
+def _alpha_eq(c, k):
+    """path condition `c` ends in self.alpha == k (possibly conjoined with the negation of earlier tests)"""
+    if not isinstance(c, vg.S):
+        return False
+    conj = [c]
+    while any(x.op == "and" for x in conj):
+        conj = [y for x in conj for y in (x.args if x.op == "and" else [x])]
+    for x in conj:
+        if x.op == "==" and any(isinstance(a, vg.S) and a.op == "selfattr" and a.args[0] == "alpha" for a in x.args) and any(vg.is_const(a, k) for a in x.args):
+            return True
+    return False
 
 
 def _find_mean(s):
